@@ -16,6 +16,7 @@ import (
 //   - the chain's current round is past the block's round: each worker writes `cancel` and `roundMismatch`,
 //     the spawning body reads `roundMismatch` after the first result arrives (blocks of 8 … 188 transactions, so that
 //     many workers are still running at that moment).
+//
 // Both paths end before any signature is looked at, so no keys are needed.
 func runVT(idx int, iters int) {
 	f := minerfix.New(minerfix.Opts{N: 4, T: 3, Self: 0, ThresholdByCount: 60, ValidationBatchSize: 2})
@@ -34,10 +35,7 @@ func runVT(idx int, iters int) {
 		b.Hash = fmt.Sprintf("vt-%d", rn)
 		return b
 	}
-	reps := iters / 3
-	if reps < 20 {
-		reps = 20
-	}
+	reps := iters * 2
 	fmt.Fprintf(os.Stderr, "=== SCEN %d VT.validate VT.validate no-output-hash\n", idx)
 	mc.SetCurrentRound(1)
 	for k := 0; k < reps; k++ {
